@@ -676,6 +676,17 @@ class _SelfObj(object):
     pass
 
 
+class _Bound(object):
+    """A method of the class taken as a value."""
+    def __init__(self, g, via_class=False):
+        self.g, self.via_class = g, via_class
+
+
+class _Lam(object):
+    def __init__(self, node, env, f):
+        self.node, self.env, self.f = node, env, f
+
+
 class RecFn(FlagFn):
     """Evaluates SignatureVerification selectors / __bool__ on a concrete list of records (one per truth-table row)."""
     def __init__(self, prog, M, P):
@@ -738,7 +749,11 @@ class RecFn(FlagFn):
                     g = self.sv.find_method(n.attr)
                     if g is not None and any(dotted(x) == 'property' for x in g.node.decorator_list):
                         return self.selector(n.attr)
+                    if g is not None:
+                        return _Bound(g)            # a method of the class used as a value (predicate of filter / map, ...)
                     raise _Unknown('attribute self.%s' % n.attr)
+                if base is self.sv and self.sv.find_method(n.attr) is not None:
+                    return _Bound(self.sv.find_method(n.attr), via_class=True)
                 if isinstance(base, _Rec):
                     if n.attr == 'issues':
                         return base.issues
@@ -798,12 +813,77 @@ class RecFn(FlagFn):
                 if all(isinstance(v, int) for v in vals):
                     return sum(int(v) for v in vals)
                 raise _Unknown('sum of non-integers')
-            if isinstance(n.func, ast.Attribute) and not n.args and self.ev(n.func.value, env, f) is self.SELF:
-                g = self.sv.find_method(n.func.attr)
-                if g is not None and not any(dotted(x) == 'property' for x in g.node.decorator_list) and len(g.params) == 1:
-                    return self.method(g)
-                raise _Unknown('call %s' % ast.unparse(n))
+            if fn in ('filter', 'itertools.filterfalse', 'filterfalse') and len(n.args) == 2:
+                pred = self.ev(n.args[0], env, f)
+                items = self.iterable(self.ev(n.args[1], env, f))
+                keep = fn == 'filter'
+                return _Gen(x for x in items if bool(x if pred is None else self.apply(pred, [x])) == keep)
+            if fn == 'map' and len(n.args) == 2:
+                pred = self.ev(n.args[0], env, f)
+                return _Gen(self.apply(pred, [x]) for x in self.iterable(self.ev(n.args[1], env, f)))
+            if isinstance(n.func, ast.Attribute):
+                base = self.ev(n.func.value, env, f)
+                if base is self.SELF or base is self.sv:
+                    g = self.sv.find_method(n.func.attr)
+                    if g is not None and not any(dotted(x) == 'property' for x in g.node.decorator_list):
+                        return self.apply(_Bound(g, via_class=base is self.sv), [self.ev(a, env, f) for a in n.args])
+                    raise _Unknown('call %s' % ast.unparse(n))
+            if isinstance(n.func, ast.Name) and isinstance(env.get(n.func.id), (_Bound, _Lam)):
+                return self.apply(env[n.func.id], [self.ev(a, env, f) for a in n.args])
+        if isinstance(n, ast.Lambda):
+            return _Lam(n, dict(env), f)
+        if isinstance(n, ast.Name) and n.id == self.sv.name and n.id not in env:
+            return self.sv
         return FlagFn.ev(self, n, env, f)
+
+    def apply(self, fv, args):
+        """Call a method of the class (bound through self / the class; static, class or instance method) or a lambda."""
+        if isinstance(fv, _Lam):
+            a = fv.node.args
+            if a.vararg or a.kwarg or a.kwonlyargs or a.defaults or len(a.args) != len(args):
+                raise _Unknown('lambda signature')
+            env = dict(fv.env)
+            env.update({x.arg: v for x, v in zip(a.args, args)})
+            return self.ev(fv.node.body, env, fv.f)
+        if not isinstance(fv, _Bound):
+            raise _Unknown('call of %r' % (fv,))
+        g = fv.g
+        decos = [dotted(x) for x in g.node.decorator_list]
+        params = list(g.node.args.args)
+        env = {}
+        if 'staticmethod' in decos:
+            pass
+        elif 'classmethod' in decos:
+            env[params.pop(0).arg] = self.sv
+        elif fv.via_class:
+            if not args:
+                raise _Unknown('unbound call')
+            env[params.pop(0).arg] = args[0]
+            args = args[1:]
+        else:
+            env[params.pop(0).arg] = self.SELF
+        if g.node.args.vararg or g.node.args.kwarg or len(args) > len(params) or len(args) < len(params) - len(g.node.args.defaults):
+            raise _Unknown('signature of %s' % g.name)
+        for x, v in zip(params, args):
+            env[x.arg] = v
+        for x, d in zip(params[len(params) - len(g.node.args.defaults):], g.node.args.defaults):
+            if x.arg not in env:
+                env[x.arg] = self.ev(d, {}, g)
+        if self.depth > 6:
+            raise _Unknown('recursion')
+        is_gen = any(isinstance(x, (ast.Yield, ast.YieldFrom)) for x in ast.walk(g.node))
+        saved, self.ys = self.ys, []
+        self.depth += 1
+        ret = None
+        try:
+            try:
+                self.block(g.node.body, env, g)
+            except _Return as r:
+                ret = r.v
+            return _Gen(self.ys) if is_gen else ret
+        finally:
+            self.depth -= 1
+            self.ys = saved
 
     def iterable(self, v):
         if isinstance(v, list):
